@@ -23,7 +23,7 @@ META = {
 }
 
 QUICK_AGES = [1, 29, 30, 34, 35, 36, 39, 40, 64, 65, 99, 100, 104, 105, 109, 110]
-UNKNOWN = [('M', '100H_'), ('F', '110H'), ('M', 'XYZ'), ('F', '80'), ('X', '100'), ('M', ''), ('F', 'DEC'),
+UNKNOWN = [('M', 'SP6K'), ('F', 'JT600'), ('M', 'HT4K'), ('F', 'DT1K'), ('M', 'WT9.08K'), ('M', '100H_'), ('F', '110H'), ('M', 'XYZ'), ('F', '80'), ('X', '100'), ('M', ''), ('F', 'DEC'),
            ('M', '4x100'), ('F', 'MAR'), ('M', 'SLJ'), ('F', '600'), ('F', '1000')]
 
 
@@ -238,6 +238,10 @@ def run_shard(ctx, spec):
                 drive(mon, gs, es, n, age=50, reps=False)
             hostile(mon, rnd, g, e)
             drive(mon, g, e, rnd.choice(sub), reps=False)
+        # the ESAA option concerns the boys' 800 m only: on every other row it changes nothing
+        for n in sub[::2]:
+            drive(mon, g, e, n, esaa=True, reps=False)
+            drive(mon, g, e, n, age=50, esaa=True, reps=False)
         if (g, e) == ('M', '800'):
             # the ESAA option must not leak into later plain calls (and vice versa): interleave them
             for n in marks:
@@ -267,7 +271,7 @@ def run_shard(ctx, spec):
                     drive(mon, g, e, rnd.randrange(lo, hi + 1), age=age, esaa=True, reps=False)
         # veterans' hurdles remapping
     if spec['i'] == 0:
-        evs = sorted(set(e for _, e in mon.live)) + ['80H', '100H', '110H']
+        evs = sorted(set(e for _, e in mon.live)) + ['80H', '100H', '110H', 'SP4K', 'JT600', 'BT1K', 'ST5K', 'CT4K', 'DT1.5K', 'HT4K', 'WT9.08K']
         for g in ('X', '?', '', 'W', 'B', 'MF', 'Male', 'female', 'U', '0'):
             for e in evs:
                 for n in (0, 1400):
